@@ -213,3 +213,56 @@ def attr_of_tag(cls, tag):
         if t == tag:
             return a
     return None
+
+
+_WITH = {}
+
+
+def kwargs_with(cls, attr):
+    """(args, kwargs) of a valid instance of cls that holds child `attr` (sample value), or None.
+    Search: required children + one member of each exactly-one group (all choices) + attr, then up to two
+    optional companions (custom validate_args rules such as 'X requires Y')."""
+    key = (cls, attr)
+    if key in _WITH:
+        return _WITH[key]
+    spec = cls.spec_no_listaggregates
+    req = [a for a, c in spec.items() if isinstance(c, Types.Element) and getattr(c, "required", False)]
+    opt = [a for a, c in spec.items() if isinstance(c, Types.Element) and not getattr(c, "required", False) and a != attr]
+    groups = [[m for m in g if m in spec] for g in all_mutexes(cls, "requiredMutexes")]
+    groups = [g for g in groups if g]
+    choices = []
+    for g in groups:
+        choices.append([attr] if attr in g else g)
+    base_args, _ = base_instance(cls)
+    lists = list_attrs(cls)
+    res = None
+    tried = 0
+    for combo in itertools.islice(itertools.product(*choices) if choices else [()], 60):
+        core = {a: None for a in req}
+        for m in combo:
+            core[m] = None
+        core[attr] = None
+        for k in range(0, 3):
+            for extra in itertools.combinations(opt, k):
+                if any(any(e in g and m in g and e != m for g in all_mutexes(cls, "optionalMutexes")) for e in extra for m in core):
+                    continue
+                names = list(core) + list(extra)
+                for args in ([base_args] if base_args else [[]]) + ([[]] if base_args else []) + [[_member_for(cls, l, 0)] for l in lists[:3] if not base_args]:
+                    tried += 1
+                    if tried > 4000:
+                        break
+                    try:
+                        kw = {a: value_for(cls, a) for a in names}
+                        _try(cls, args, kw)
+                        res = (list(args), kw)
+                        break
+                    except Exception:
+                        continue
+                if res or tried > 4000:
+                    break
+            if res or tried > 4000:
+                break
+        if res or tried > 4000:
+            break
+    _WITH[key] = res
+    return res
